@@ -23,14 +23,14 @@ open JinjaV.Lex
 -- the regexes the hand scanners transcribe ---------------------------------------------------------------------
 -- (re.VERBOSE layout removed; pinned to the source on every run by Props/C14Regex.lean over Gen/LiteralRegex.lean)
 
-/-- `integer_re`, re.IGNORECASE — transcribed by `Lex.matchInt` (`matchPrefInt` x3, `matchDecInt`) -/
+/-- `integer_re`, re.IGNORECASE | re.ASCII (so `\\d` is `[0-9]`, as `Char.isDigit`; /repo e06a1f7) — transcribed by `Lex.matchInt` (`matchPrefInt` x3, `matchDecInt`) -/
 def scannedIntegerRe : String := "(0b(_?[0-1])+|0o(_?[0-7])+|0x(_?[\\da-f])+|[1-9](_?\\d)*|0(_?0)*)"
-/-- `float_re`, re.IGNORECASE — transcribed by `Lex.matchFloat` (`digitRun`, `matchFrac`, `matchExpo`, `prev`) -/
+/-- `float_re`, re.IGNORECASE | re.ASCII — transcribed by `Lex.matchFloat` (`digitRun`, `matchFrac`, `matchExpo`, `prev`) -/
 def scannedFloatRe : String := "(?<!\\.)(\\d+_)*\\d+((\\.(\\d+_)*\\d+)?e[+\\-]?(\\d+_)*\\d+|\\.(\\d+_)*\\d+)"
 /-- `string_re`, re.S — transcribed by `Lex.matchString` / `strBody` -/
 def scannedStringRe : String := "('([^'\\\\]*(?:\\\\.[^'\\\\]*)*)'|\"([^\"\\\\]*(?:\\\\.[^\"\\\\]*)*)\")"
-def scannedIntegerFlags : List String := ["IGNORECASE"]
-def scannedFloatFlags : List String := ["IGNORECASE"]
+def scannedIntegerFlags : List String := ["ASCII", "IGNORECASE"]
+def scannedFloatFlags : List String := ["ASCII", "IGNORECASE"]
 def scannedStringFlags : List String := ["DOTALL"]
 
 -- integers ----------------------------------------------------------------------------------------------
